@@ -34,11 +34,12 @@
 (*                  convention (camelCase vs snake_case, i.e. case and     *)
 (*                  underscores) after dropping a "_avail" suffix; or the  *)
 (*                  pair is a documented rename;                           *)
-(*   ModuleDispatch a module-level alias never looks the replacement up on *)
-(*                  its first argument.                                    *)
+(*   StaticDispatch an alias that is not handed the receiver (module-level *)
+(*                  function, static method) never looks the replacement   *)
+(*                  up on its first argument.                              *)
 (* The constants are EXTRACTED from the imported package by the driver     *)
 (* (vb/aliases.py); AliasesModel.tla binds them.  The second half of the   *)
-(* module is the keyword-renaming decorator (KwForward).                   *)
+(* module is the keyword-renaming decorator (KwForwardSets).               *)
 (***************************************************************************)
 EXTENDS Integers, Sequences, FiniteSets, TLC, Json
 
@@ -47,6 +48,8 @@ CONSTANTS
     Modules,    \* subset of Spaces: the module spaces
     Bases,      \* [Spaces -> Seq(Spaces)]: direct bases in declaration order
     Table,      \* [Spaces -> [names -> function ids]]: own dictionaries
+    Static,     \* set of <<space, name>>: bindings through staticmethod (the receiver is not passed)
+    Home,       \* [Spaces -> Spaces \cup {""}]: the module whose body declares the class ("" if not modelled)
     Fn,         \* [function ids -> [kind, own, newname, captured, dispatch]]
     Spelling,   \* [names -> Seq(Nat)]: code points
     Renames,    \* set of <<old, new>>: documented renames (not a re-spelling)
@@ -85,7 +88,8 @@ MRO == TLCEval([c \in Spaces |-> Lin(c)])
 RECURSIVE Ancestors(_)
 Ancestors(c) == {c} \cup UNION {Ancestors(Bases[c][i]) : i \in 1..Len(Bases[c])}
 
-MroInv ==
+\* (the facts about the constants are stated on the idle state: they never change)
+MroInv == (pc = "idle") =>
     \A c \in Spaces :
         LET m == MRO[c] IN
         /\ m[1] = c
@@ -102,30 +106,40 @@ MroInv ==
 Defines(s, n) == n \in DOMAIN Table[s]
 VisibleF == TLCEval([c \in Spaces |-> UNION {DOMAIN Table[MRO[c][i]] : i \in 1..Len(MRO[c])}])
 Visible(c) == VisibleF[c]
-Definer(c, n) == LET m == MRO[c] IN m[Min({i \in 1..Len(m) : Defines(m[i], n)})]
-Resolve(c, n) == Table[Definer(c, n)][n]            \* function id; needs n \in Visible(c)
+FirstDefiner(c, n) == LET m == MRO[c] IN m[Min({i \in 1..Len(m) : Defines(m[i], n)})]
+DefinerF == TLCEval([c \in Spaces |-> [n \in VisibleF[c] |-> FirstDefiner(c, n)]])      \* (computed once)
+Definer(c, n) == DefinerF[c][n]                      \* the space that supplies n; needs n \in Visible(c)
+Resolve(c, n) == Table[Definer(c, n)][n]            \* function id
 IsAlias(f) == Fn[f].kind = "alias"
 
+\* obj.n(args) runs f(obj, args) for a function found in a class, f(args) for a static method
+\* and for a function of a module
+PassesReceiver(c, n) == c \notin Modules /\ <<Definer(c, n), n>> \notin Static
+
 (***************************************************************************)
-(* Running function f with receiver c: what finally runs, and the          *)
-(* warnings.  A wrapper that finds nothing to forward to "runs" the        *)
-(* pseudo function "!missing"; a cycle of aliases runs "!loop".            *)
+(* Running function f for a call on receiver c: what finally runs, and the *)
+(* warnings.  A wrapper that finds nothing to forward to "runs" the pseudo *)
+(* function "!missing"; one that looks the replacement up on its first     *)
+(* argument although that is not the receiver runs "!firstarg" (whatever   *)
+(* the caller's argument happens to have under that name); a cycle of      *)
+(* aliases runs "!loop".                                                   *)
 (***************************************************************************)
 Warn(f) == [old |-> Fn[f].own, new |-> Fn[f].newname]
 
-RECURSIVE Exec(_, _, _)
-Exec(c, f, fuel) ==
+RECURSIVE Exec(_, _, _, _)
+Exec(c, f, passes, fuel) ==
     IF ~IsAlias(f) THEN [ran |-> f, warned |-> << >>]
     ELSE IF fuel = 0 THEN [ran |-> "!loop", warned |-> << >>]
     ELSE LET nxt == IF Fn[f].dispatch = "dynamic"
-                    THEN (IF Fn[f].newname \in Visible(c) THEN Resolve(c, Fn[f].newname) ELSE "!missing")
+                    THEN (IF ~passes THEN "!firstarg"
+                          ELSE IF Fn[f].newname \in Visible(c) THEN Resolve(c, Fn[f].newname) ELSE "!missing")
                     ELSE IF Fn[f].dispatch = "captured" THEN Fn[f].captured
                     ELSE "!missing"
-         IN  IF nxt = "!missing" THEN [ran |-> "!missing", warned |-> <<Warn(f)>>]
-             ELSE LET r == Exec(c, nxt, fuel - 1) IN [ran |-> r.ran, warned |-> <<Warn(f)>> \o r.warned]
+         IN  IF nxt \in {"!missing", "!firstarg"} THEN [ran |-> nxt, warned |-> <<Warn(f)>>]
+             ELSE LET r == Exec(c, nxt, passes, fuel - 1) IN [ran |-> r.ran, warned |-> <<Warn(f)>> \o r.warned]
 
 Fuel == 4
-Outcome(c, n) == Exec(c, Resolve(c, n), Fuel)
+Outcome(c, n) == Exec(c, Resolve(c, n), PassesReceiver(c, n), Fuel)
 
 (***************************************************************************)
 (* Spelling: the casing convention.  Norm drops a trailing "_avail", then  *)
@@ -144,16 +158,35 @@ Norm(n) == NormF[n]
 Candidates(c, n) == {m \in Visible(c) : ~IsAlias(Resolve(c, m)) /\ Norm(m) = Norm(n)}
 RenamedTo(n) == {p[2] : p \in {q \in Renames : q[1] = n}}
 
-ReplacementOK(c, n, new) ==
-    \/ Candidates(c, n) = {new}
-    \/ /\ Candidates(c, n) = {}
-       /\ new \in RenamedTo(n)
-       /\ new \in Visible(c)
-       /\ ~IsAlias(Resolve(c, new))
+IsAliasAt(c, n) == IsAlias(Resolve(c, n))
+NewOf(c, n) == Fn[Resolve(c, n)].newname
 
 (***************************************************************************)
-(* The state machine: from idle, any visible name may be called on any     *)
-(* receiver; Return goes back to idle.                                     *)
+(* Where "use <new> instead" can be followed from a call of alias n on     *)
+(* receiver c: on the receiver itself; or -- only for a binding that does  *)
+(* not pass the receiver -- in the module whose body declares the class    *)
+(* (a plain function there takes the same arguments as the static method). *)
+(***************************************************************************)
+NewSpace(c, n) ==
+    LET new == NewOf(c, n)
+        home == Home[Definer(c, n)]
+    IN  IF new \in Visible(c) THEN c
+        ELSE IF c \notin Modules /\ ~PassesReceiver(c, n) /\ home \in Spaces /\ new \in Visible(home) THEN home
+        ELSE "!missing"
+
+ReplacementOK(c, n, new) ==
+    LET sp == NewSpace(c, n) IN
+    /\ sp # "!missing"
+    /\ sp # c => Candidates(c, n) = {}
+    /\ \/ Candidates(sp, n) = {new}
+       \/ /\ Candidates(sp, n) = {}
+          /\ new \in RenamedTo(n)
+          /\ ~IsAlias(Resolve(sp, new))
+
+(***************************************************************************)
+(* The state machine: from idle, any deprecated name visible on a receiver *)
+(* (and any name such an alias advertises) may be called on it; Return     *)
+(* goes back to idle.                                                      *)
 (***************************************************************************)
 Init == pc = "idle" /\ recv = "" /\ attr = "" /\ ran = "" /\ warned = << >>
 
@@ -166,7 +199,10 @@ Call(c, n) ==
 
 Return == pc = "called" /\ pc' = "idle" /\ recv' = "" /\ attr' = "" /\ ran' = "" /\ warned' = << >>
 
-Next == Return \/ \E c \in Spaces : \E n \in Visible(c) : Call(c, n)
+\* the calls worth making: every deprecated name visible on the receiver, and every name one of them advertises
+Interesting(c) == LET al == {n \in Visible(c) : IsAlias(Resolve(c, n))}
+                  IN  al \cup ({Fn[Resolve(c, a)].newname : a \in al} \cap Visible(c))
+Next == Return \/ \E c \in Spaces : \E n \in Interesting(c) : Call(c, n)
 Spec == Init /\ [][Next]_vars
 
 TypeOK ==
@@ -179,9 +215,10 @@ StaticOK == (pc = "idle") =>
     /\ \A s \in Spaces : \A n \in DOMAIN Table[s] : Table[s][n] \in DOMAIN Fn
     /\ \A f \in DOMAIN Fn : IsAlias(f) => Fn[f].captured \in DOMAIN Fn
     /\ Modules \subseteq Spaces /\ \A m \in Modules : Bases[m] = << >>
+    /\ \A b \in Static : b[1] \in Spaces \ Modules /\ b[2] \in DOMAIN Table[b[1]]
+    /\ \A s \in Spaces : Home[s] \in Modules \cup {""}
 
 CalledAlias == pc = "called" /\ IsAlias(Resolve(recv, attr))
-NewOf(c, n) == Fn[Resolve(c, n)].newname
 
 \* an ordinary function runs itself, silently
 PlainInv == (pc = "called" /\ ~IsAlias(Resolve(recv, attr))) => (ran = Resolve(recv, attr) /\ warned = << >>)
@@ -191,18 +228,19 @@ OwnNameInv == CalledAlias => Fn[Resolve(recv, attr)].own = attr
 
 ResolutionOK(c, n) ==
     LET new == NewOf(c, n)
+        sp  == NewSpace(c, n)
         old == Outcome(c, n)
-    IN  /\ new \in Visible(c)
-        /\ old.ran \notin {"!missing", "!loop"}
-        /\ old.ran = Outcome(c, new).ran
-        /\ old.warned = <<[old |-> n, new |-> new]>> \o Outcome(c, new).warned
+    IN  /\ sp # "!missing"
+        /\ PassesReceiver(c, n) = PassesReceiver(sp, new)        \* same calling convention: same arguments accepted
+        /\ old.ran \notin {"!missing", "!loop", "!firstarg"}
+        /\ old.ran = Outcome(sp, new).ran
+        /\ old.warned = <<[old |-> n, new |-> new]>> \o Outcome(sp, new).warned
 
 ResolutionInv == CalledAlias => ResolutionOK(recv, attr)
 ReplacementInv == CalledAlias => ReplacementOK(recv, attr, NewOf(recv, attr))
-ModuleDispatch == (CalledAlias /\ recv \in Modules) => Fn[Resolve(recv, attr)].dispatch = "captured"
-
-\* the advertised replacement is not itself deprecated (the warning must not send users to a warning)
-FinalInv == CalledAlias => (NewOf(recv, attr) \in Visible(recv) => ~IsAlias(Resolve(recv, NewOf(recv, attr))))
+\* a wrapper that is not handed the receiver must not look the replacement up on its first argument
+StaticDispatchOK(c, n) == ~PassesReceiver(c, n) => Fn[Resolve(c, n)].dispatch = "captured"
+StaticDispatch == CalledAlias => StaticDispatchOK(recv, attr)
 
 (***************************************************************************)
 (* What is handed to the driver: one record per (receiver, alias) with     *)
@@ -210,17 +248,20 @@ FinalInv == CalledAlias => (NewOf(recv, attr) \in Visible(recv) => ~IsAlias(Reso
 (***************************************************************************)
 PairRecord(c, n) ==
     LET new == NewOf(c, n)
-        vis == new \in Visible(c)
+        sp  == NewSpace(c, n)
+        vis == sp # "!missing"
     IN  [kind |-> "pair", space |-> c, alias |-> n, newname |-> new,
          alias_definer |-> Definer(c, n),
-         expected_definer |-> IF vis THEN Definer(c, new) ELSE "!missing",
-         expected_fid |-> IF vis THEN Outcome(c, new).ran ELSE "!missing",
+         passes_receiver |-> PassesReceiver(c, n),
+         new_space |-> sp,
+         expected_definer |-> IF vis THEN Definer(sp, new) ELSE "!missing",
+         expected_fid |-> IF vis THEN Outcome(sp, new).ran ELSE "!missing",
          model_runs |-> Outcome(c, n).ran,
          dispatch |-> Fn[Resolve(c, n)].dispatch,
          resolution_ok |-> ResolutionOK(c, n),
          replacement_ok |-> ReplacementOK(c, n, new),
-         candidates |-> Candidates(c, n),
-         module_dispatch_ok |-> (c \in Modules => Fn[Resolve(c, n)].dispatch = "captured"),
+         candidates |-> IF vis THEN Candidates(sp, n) ELSE Candidates(c, n),
+         static_dispatch_ok |-> StaticDispatchOK(c, n),
          own_ok |-> Fn[Resolve(c, n)].own = n]
 
 EmitInv == CalledAlias => PrintT(ToJson(PairRecord(recv, attr)))
@@ -261,7 +302,7 @@ KwTargetOK(r) == r.drop \/ (/\ (r.new \in r.params \/ r.varkw)
                             /\ ~IsObsolete(r.fid, r.new)
                             /\ (Squash(Spelling[r.old]) = Squash(Spelling[r.new]) \/ <<r.old, r.new>> \in Renames))
 KwOldGone(r) == r.old \notin r.params       \* the old keyword is not ALSO a live parameter
-KwInv == \A r \in KwRenames : KwTargetOK(r) /\ KwOldGone(r)
+KwInv == (pc = "idle") => \A r \in KwRenames : KwTargetOK(r) /\ KwOldGone(r)
 
 \* cases for one renaming rule r: the keywords given (values are small numbers the driver maps to objects; 3 is None)
 KwCases(r) ==
@@ -281,7 +322,7 @@ KwRecord(r, given) ==
      target_ok |-> KwTargetOK(r), old_gone |-> KwOldGone(r)]
 
 \* model-level facts about the forwarding function itself
-KwModelInv ==
+KwModelInv == (pc = "idle") =>
     \A r \in KwRenames : \A g \in KwCases(r) : \A S \in KwForwardSets(r.fid, g) :
         /\ \A p \in S : ~IsObsolete(r.fid, p[1])                              \* no obsolete keyword arrives
         /\ \A p, q \in S : p[1] = q[1] => p = q                                \* each keyword once
